@@ -35,9 +35,9 @@ def _(c):
     yield "at_least_one_side", c.a.side_rows.n >= 1
 
 
-def np_summary_spec(rows, t, pruned, started, wn, w, total, result):
-    member = rows.member
-    added = lambda r: rows.tbl.cols["added"][r]
+def np_summary_spec(rows, t, pruned, started, wn, w, total, result, member=None, added=None):
+    member = member or rows.member
+    added = added or (lambda r: rows.tbl.cols["added"][r])
     return [("times", specs.times_spec(member, added, t, started, wn, w, total), ["C15", "C16"]),
             ("result", result == specs.np_result(member, pruned), ["C15"])]
 
@@ -60,11 +60,12 @@ def _(c):
     yield "at_least_one_side", c.a.side_rows.n >= 1
 
 
-def mb_summary_spec(rows, t, pruned, started, wn, w, total, result):
-    member = rows.member
-    tbl = rows.tbl
-    added = lambda r: tbl.cols["added"][r]
-    mood_is = lambda r, s: And(Not(tbl.nulls["mood"][r]), tbl.cols["mood"][r] == s)
+def mb_summary_spec(rows, t, pruned, started, wn, w, total, result, member=None, added=None, mood_is=None):
+    if rows is not None:
+        tbl = rows.tbl
+        member = rows.member
+        added = lambda r: tbl.cols["added"][r]
+        mood_is = lambda r, s: And(Not(tbl.nulls["mood"][r]), tbl.cols["mood"][r] == s)
     return [("times", specs.times_spec(member, added, t, started, wn, w, total), ["C15", "C16"]),
             ("result", result == specs.mb_result(member, mood_is, pruned), ["C15"])]
 
@@ -74,3 +75,483 @@ def _(c):
     started, wn, w, total, result = usage_fields(c.result)
     for n, t, tags in mb_summary_spec(c.a.side_rows, c.a.t("delete_time"), c.a.t("pruned"), started, wn, w, total, result):
         yield "matches_spec." + n, t, tags
+
+
+def row_usage(row):
+    """(started, waiting_isnone, waiting, total, result) of a usage-table row"""
+    return (row.started, row.null("waiting_time"), row.waiting_time, row.total_time, row.result)
+
+
+def unchanged(c, comps):
+    from pvc.state import comp_eq
+    return conj([comp_eq(k, c.pre.get_comp(k), c.post.get_comp(k)) for k in comps])
+
+
+# ------------------------------------------------ _summarize_*_and_store
+c = contract("server.AppNamespace._summarize_nameplate_and_store", cls="AppNamespace",
+             params={"side_rows": "rowlist:ch.nameplate_sides", "delete_time": "real", "pruned": "bool"},
+             modifies=[UNP, "in_tx.us"], tags=["C15", "C16", "C17"])
+
+
+@c.requires
+def _(c):
+    yield "usage_db_present", H.CFG_USAGE
+    yield "at_least_one_side", c.a.side_rows.n >= 1
+
+
+@c.ensures
+def _(c):
+    a = c.sf("_app_id")
+
+    def P(row):
+        return And(row.app_id == a, *[t for _, t, _ in np_summary_spec(
+            c.a.side_rows, c.a.t("delete_time"), c.a.t("pruned"), *row_usage(row))])
+    from pvc.state import is_insert_where
+    yield "one_usage_row", is_insert_where(c.pre.t(UNP), c.post.t(UNP), P), ["C15", "C16"]
+    yield "in_tx", c.post.in_tx["us"], ["C09"]
+
+
+c = contract("server.AppNamespace._summarize_mailbox_and_store", cls="AppNamespace",
+             params={"for_nameplate": "bool", "side_rows": "rowlist:ch.mailbox_sides", "delete_time": "real",
+                     "pruned": "bool"},
+             modifies=[UMB, "in_tx.us"], tags=["C15", "C16", "C17"])
+
+
+@c.requires
+def _(c):
+    yield "usage_db_present", H.CFG_USAGE
+    yield "at_least_one_side", c.a.side_rows.n >= 1
+
+
+@c.ensures
+def _(c):
+    a = c.sf("_app_id")
+
+    def P(row):
+        return And(row.app_id == a, row.for_nameplate == c.a.t("for_nameplate"),
+                   *[t for _, t, _ in mb_summary_spec(c.a.side_rows, c.a.t("delete_time"), c.a.t("pruned"),
+                                                      *row_usage(row))])
+    from pvc.state import is_insert_where
+    yield "one_usage_row", is_insert_where(c.pre.t(UMB), c.post.t(UMB), P), ["C15", "C16"]
+    yield "in_tx", c.post.in_tx["us"], ["C09"]
+
+
+# ------------------------------------------------ log_client_version
+c = contract("server.AppNamespace.log_client_version", cls="AppNamespace",
+             params={"server_rx": "real", "side": "str", "client_version": "pair:json"},
+             modifies=[UCV, "in_tx.us"], tags=["C16", "C17", "C18", "C09"])
+
+
+@c.ensures
+def _(c):
+    a = c.sf("_app_id")
+    cv = c.a.client_version.items
+    from pvc.state import is_insert_where
+    yield "record", If(H.CFG_USAGE,
+                       is_insert_where(c.pre.t(UCV), c.post.t(UCV), lambda row: And(
+                           row.app_id == a, row.side == c.a.t("side"),
+                           specs.blur_rel(row.connect_time, c.a.t("server_rx")),
+                           row.implementation == to_term(cv[0], "json"), row.version == to_term(cv[1], "json"))),
+                       tbl_eq(c.pre.t(UCV), c.post.t(UCV))), ["C16", "C18"]
+    yield "committed", If(H.CFG_USAGE, Not(c.post.in_tx["us"]), c.post.in_tx["us"] == c.pre.in_tx["us"]), ["C09"]
+
+
+# ------------------------------------------------ nameplate id queries
+def U(S, a):
+    """names of the live nameplates of app a, whatever the listing configuration"""
+    return lambda y: S.t(NP).exists(lambda r: And(r.app_id == a, r.name == y))
+
+
+def members(res):
+    if isinstance(res, VSet):
+        if res.mem is None:
+            return lambda y: BoolVal(False)
+        return lambda y: res.mem[y]
+    if isinstance(res, VList) and res.n.eq(IntVal(0)):
+        return lambda y: BoolVal(False)
+    raise AttributeError("result is neither a set nor the empty list")
+
+
+c = contract("server.AppNamespace._get_nameplate_ids", cls="AppNamespace", params={}, result="set:str",
+             modifies=[], tags=["C04", "C06", "C07", "C18", "C17"])
+
+
+@c.ensures
+def _(c):
+    a = c.sf("_app_id")
+    mem = members(c.result)
+    yield "unfiltered_set", FA([Str], lambda y: mem(y) == U(c.pre, a)(y)), ["C04", "C06", "C07", "C18"]
+
+
+c = contract("server.AppNamespace.get_nameplate_ids", cls="AppNamespace", params={}, result="set:str",
+             modifies=[], tags=["C18", "C07", "C17"])
+
+
+@c.ensures
+def _(c):
+    a = c.sf("_app_id")
+    mem = members(c.result)
+    yield "gated", FA([Str], lambda y: mem(y) == And(H.CFG_ALLOW_LIST, U(c.pre, a)(y))), ["C18", "C07"]
+
+
+# ------------------------------------------------ _find_available_nameplate_id
+c = contract("server.AppNamespace._find_available_nameplate_id", cls="AppNamespace", params={}, result="str",
+             modifies=[], tags=["C04", "C17"])
+
+
+def short_free(c, j):
+    a = c.sf("_app_id")
+    return And(1 <= j, j <= 999, Not(U(c.pre, a)(dec(j))))
+
+
+@c.ensures
+def _(c):
+    a = c.sf("_app_id")
+    res = to_term(c.result, "str")
+    k = undec(res)
+    yield "free", Not(U(c.pre, a)(res)), ["C04"]
+    yield "positive_decimal", And(res == dec(k), k >= 1), ["C04"]
+    some_short = EX([INT], lambda j: short_free(c, j))
+    yield "shortest", If(some_short,
+                         And(1 <= k, k <= 999,
+                             FA([INT], lambda j: Implies(short_free(c, j), ndigits(k) <= ndigits(j)))),
+                         And(1000 <= k, k <= 999999)), ["C04"]
+
+
+@c.raises("ValueError", "exhausted", tags=["C04", "C17"], iff=False)
+def _(c):
+    yield "when", Not(EX([INT], lambda j: short_free(c, j)))
+
+
+@c.loop(2, modifies=[], tags=["C04"])
+def _(c, L):
+    yield "trivial", BoolVal(True)
+
+
+# ------------------------------------------------ heap helpers
+def hp(S, name):
+    return S.heap[name]
+
+
+def registry_wf(S, app):
+    """H2 for one namespace: a registered Mailbox object carries the key it is
+    registered under, this namespace and its app id, and is allocated."""
+    m = hp(S, "AppNamespace._mailboxes")[app]
+    return FA([Str], lambda k: Implies(m[k] != 0, And(
+        S.alloc[m[k]],
+        hp(S, "Mailbox._mailbox_id")[m[k]] == k,
+        hp(S, "Mailbox._app_id")[m[k]] == hp(S, "AppNamespace._app_id")[app],
+        hp(S, "Mailbox._app")[m[k]] == app)), pats=lambda k: [m[k]])
+
+
+MAILBOX_FIELDS = ["heap.Mailbox._app", "heap.Mailbox._app_id", "heap.Mailbox._mailbox_id", "heap.Mailbox._listeners"]
+REGISTRY_COMPS = ["heap.AppNamespace._mailboxes", "alloc"] + MAILBOX_FIELDS
+
+
+def id_not_foreign(S, a, mid):
+    """F2: mailboxes.id is a global key; the code tests existence per app"""
+    return S.t(MB).none(lambda r: And(r.id == mid, r.app_id != a))
+
+
+# ------------------------------------------------ _add_mailbox
+c = contract("server.AppNamespace._add_mailbox", cls="AppNamespace",
+             params={"mailbox_id": "str", "for_nameplate": "bool", "side": "str", "when": "real"},
+             modifies=[MB, "in_tx.ch"], tags=["C03", "C05", "C06", "C17"])
+
+
+@c.requires
+def _(c):
+    yield "id_not_foreign", id_not_foreign(c.pre, c.sf("_app_id"), c.a.t("mailbox_id"))
+
+
+def add_mailbox_post(S0, S1, a, mid, for_np, when):
+    had = S0.t(MB).exists(lambda r: And(r.app_id == a, r.id == mid))
+    return If(had, And(tbl_eq(S0.t(MB), S1.t(MB)), S1.in_tx["ch"] == S0.in_tx["ch"]),
+              And(is_insert(S0.t(MB), S1.t(MB), {"app_id": a, "id": mid, "for_nameplate": for_np, "updated": when}),
+                  S1.in_tx["ch"]))
+
+
+@c.ensures
+def _(c):
+    yield "row", add_mailbox_post(c.pre, c.post, c.sf("_app_id"), c.a.t("mailbox_id"), c.a.t("for_nameplate"),
+                                  c.a.t("when")), ["C03", "C05"]
+
+
+# ------------------------------------------------ free_mailbox
+c = contract("server.AppNamespace.free_mailbox", cls="AppNamespace", params={"mailbox_id": "str"},
+             modifies=["heap.AppNamespace._mailboxes"], tags=["C02", "C08", "C17"])
+
+
+@c.ensures
+def _(c):
+    m0 = hp(c.pre, "AppNamespace._mailboxes")
+    yield "unregistered", hp(c.post, "AppNamespace._mailboxes") == Store(
+        m0, c.self_ref, Store(m0[c.self_ref], c.a.t("mailbox_id"), 0)), ["C02", "C08"]
+
+
+# ------------------------------------------------ open_mailbox
+c = contract("server.AppNamespace.open_mailbox", cls="AppNamespace",
+             params={"mailbox_id": "str", "side": "str", "when": "real"}, result="ref:Mailbox",
+             modifies=[MB, MS, "in_tx.ch"] + REGISTRY_COMPS,
+             tags=["C02", "C05", "C08", "C09", "C12", "C14", "C17"])
+
+
+@c.requires
+def _(c):
+    yield "id_not_foreign", id_not_foreign(c.pre, c.sf("_app_id"), c.a.t("mailbox_id"))
+    yield "registry_wf", registry_wf(c.pre, c.self_ref)
+
+
+def side_row_post(S0, S1, mid, side, when):
+    had = S0.t(MS).exists(lambda r: And(r.mailbox_id == mid, r.side == side))
+    return If(had, tbl_eq(S0.t(MS), S1.t(MS)),
+              is_insert(S0.t(MS), S1.t(MS), {"mailbox_id": mid, "opened": BoolVal(True), "side": side, "added": when}))
+
+
+def mailbox_row_post(S0, S1, a, mid, when, for_np=False):
+    """the row (a, mid) exists afterwards with updated = when; created
+    (for_nameplate given) if it was missing; no other row changes"""
+    had = S0.t(MB).exists(lambda r: And(r.app_id == a, r.id == mid))
+    return If(had, is_update(S0.t(MB), S1.t(MB), lambda r: r.id == mid, {"updated": when}),
+              is_insert(S0.t(MB), S1.t(MB), {"app_id": a, "id": mid, "for_nameplate": BoolVal(for_np),
+                                             "updated": when}))
+
+
+def crowded(S1, mid):
+    return specs.three_distinct(lambda r: And(S1.t(MS).live[r], S1.t(MS).cols["mailbox_id"][r] == mid))
+
+
+def open_mailbox_post(c, res):
+    S0, S1 = c.pre, c.post
+    a, mid, side, when = c.sf("_app_id"), c.a.t("mailbox_id"), c.a.t("side"), c.a.t("when")
+    me = c.self_ref
+    yield "row", mailbox_row_post(S0, S1, a, mid, when), ["C05", "C08", "C12", "C14"]
+    yield "side_row", side_row_post(S0, S1, mid, side, when), ["C05", "C14", "C08"]
+    yield "committed", Not(S1.in_tx["ch"]), ["C09"]
+    m0 = hp(S0, "AppNamespace._mailboxes")
+    old = m0[me][mid]
+    new = hp(S1, "AppNamespace._mailboxes")[me][mid]
+    yield "registered", And(new != 0, hp(S1, "AppNamespace._mailboxes") == Store(m0, me, Store(m0[me], mid, new))), ["C02"]
+    fresh_obj = And(Not(S0.alloc[new]), S1.alloc == Store(S0.alloc, new, True),
+                    hp(S1, "Mailbox._app") == Store(hp(S0, "Mailbox._app"), new, me),
+                    hp(S1, "Mailbox._app_id") == Store(hp(S0, "Mailbox._app_id"), new, a),
+                    hp(S1, "Mailbox._mailbox_id") == Store(hp(S0, "Mailbox._mailbox_id"), new, mid),
+                    hp(S1, "Mailbox._listeners") == Store(hp(S0, "Mailbox._listeners"), new, K(INT, BoolVal(False))))
+    same_obj = And(new == old, S1.alloc == S0.alloc,
+                   *[hp(S1, f[5:]) == hp(S0, f[5:]) for f in MAILBOX_FIELDS])
+    yield "one_object_per_id", If(old != 0, same_obj, fresh_obj), ["C02", "C11"]
+    yield "registry_wf", registry_wf(S1, me), ["C02"]
+    if res is not None:
+        yield "returns_registered", res == new, ["C02"]
+
+
+@c.ensures
+def _(c):
+    yield from open_mailbox_post(c, c.result.t)
+
+
+@c.raises("CrowdedError", "third_side", tags=["C05"])
+def _(c):
+    yield "when", crowded(c.post, c.a.t("mailbox_id"))
+    for n, t, tags in open_mailbox_post(c, None):
+        yield n, t
+
+
+# ------------------------------------------------ claim_nameplate
+CLAIM_MOD = [NP, NS, MB, MS, "in_tx.ch", "np_next"] + REGISTRY_COMPS
+c = contract("server.AppNamespace.claim_nameplate", cls="AppNamespace",
+             params={"name": "str", "side": "str", "when": "real"}, result="str",
+             modifies=CLAIM_MOD, tags=["C03", "C05", "C07", "C09", "C10", "C14", "C17"])
+
+
+def core_for_claim(S):
+    return [("I1", I.I1(S)), ("I2", I.I2(S)), ("I3", I.I3(S)), ("I4", I.I4(S)), ("I5", I.I5(S)), ("I6", I.I6(S))]
+
+
+@c.requires
+def _(c):
+    yield from core_for_claim(c.pre)
+    yield "clean_ch", Not(c.pre.in_tx["ch"])
+    yield "registry_wf", registry_wf(c.pre, c.self_ref)
+
+
+def N_pred(S, a, name):
+    t = S.t(NP)
+    return lambda n: And(t.live[n], t.cols["app_id"][n] == a, t.cols["name"][n] == name)
+
+
+def ns_row_post(S0, S1, n, side, when):
+    """side's claim row on nameplate n: left exactly as it is if present, else created claimed"""
+    had = S0.t(NS).exists(lambda r: And(r.nameplates_id == n, r.side == side))
+    return If(had, tbl_eq(S0.t(NS), S1.t(NS)),
+              is_insert(S0.t(NS), S1.t(NS), {"nameplates_id": n, "claimed": BoolVal(True), "side": side,
+                                             "added": when}))
+
+
+def fresh_id(S, g):
+    return And(g != EMPTY, S.t(MB).none(lambda r: r.id == g), S.t(MS).none(lambda r: r.mailbox_id == g),
+               S.t(MSG).none(lambda r: r.mailbox_id == g), S.t(NP).none(lambda r: r.mailbox_id == g))
+
+
+def claim_post(c, res):
+    """post-state of a claim that went through (answered `claimed` or `crowded`)"""
+    S0, S1 = c.pre, c.post
+    a, name, side, when = c.sf("_app_id"), c.a.t("name"), c.a.t("side"), c.a.t("when")
+    N = N_pred(S0, a, name)
+    existed = EX([INT], N)
+    np0, np1 = S0.t(NP), S1.t(NP)
+
+    def existing(n):
+        mid = np0.cols["mailbox_id"][n]
+        cl = [tbl_eq(np0, np1), S1.np_next == S0.np_next,
+              ns_row_post(S0, S1, n, side, when),
+              is_update(S0.t(MB), S1.t(MB), lambda r: r.id == mid, {"updated": when}),
+              side_row_post(S0, S1, mid, side, when)]
+        if res is not None:
+            cl.append(res == mid)
+        return And(*cl)
+    yield "existing", FA([INT], lambda n: Implies(N(n), existing(n))), ["C03", "C07", "C14", "C05"]
+    if res is not None:
+        g = res
+        n1 = S0.np_next
+        new = And(fresh_id(S0, g),
+                  is_insert(np0, np1, {"app_id": a, "name": name, "mailbox_id": g}, rowid=n1),
+                  S1.np_next == n1 + 1,
+                  is_insert(S0.t(NS), S1.t(NS), {"nameplates_id": n1, "claimed": BoolVal(True), "side": side,
+                                                 "added": when}),
+                  is_insert(S0.t(MB), S1.t(MB), {"app_id": a, "id": g, "for_nameplate": BoolVal(True),
+                                                 "updated": when}),
+                  is_insert(S0.t(MS), S1.t(MS), {"mailbox_id": g, "opened": BoolVal(True), "side": side,
+                                                 "added": when}))
+        yield "new", Implies(Not(existed), new), ["C03", "C04", "C07"]
+        # C03: the answer is the mailbox of the one live nameplate (a, name)
+        yield "returns_row_mailbox", np1.exists(lambda r: And(r.app_id == a, r.name == name, r.mailbox_id == res)), ["C03"]
+    else:
+        yield "only_existing", existed, ["C05"]
+    yield "committed", Not(S1.in_tx["ch"]), ["C09"]
+    yield "registry_wf", registry_wf(S1, c.self_ref), ["C02"]
+
+
+@c.ensures
+def _(c):
+    yield from claim_post(c, to_term(c.result, "str"))
+
+
+def claim_crowded(c):
+    S0, S1 = c.pre, c.post
+    a, name = c.sf("_app_id"), c.a.t("name")
+    N = N_pred(S0, a, name)
+    ns1 = S1.t(NS)
+    return EX([INT], lambda n: And(N(n), Or(
+        crowded(S1, S0.t(NP).cols["mailbox_id"][n]),
+        specs.three_distinct(lambda r: And(ns1.live[r], ns1.cols["nameplates_id"][r] == n)))))
+
+
+@c.raises("CrowdedError", "third_side", tags=["C05"])
+def _(c):
+    yield "when", claim_crowded(c)
+    for n, t, tags in claim_post(c, None):
+        yield n, t
+
+
+@c.raises("ReclaimedError", "released_before", tags=["C07", "C09"])
+def _(c):
+    S0 = c.pre
+    a, name, side = c.sf("_app_id"), c.a.t("name"), c.a.t("side")
+    N = N_pred(S0, a, name)
+    yield "when", EX([INT], lambda n: And(N(n), S0.t(NS).exists(
+        lambda r: And(r.nameplates_id == n, r.side == side, Not(r.claimed)))))
+    yield "no_change", unchanged(c, CLAIM_MOD)
+
+
+# ------------------------------------------------ allocate_nameplate
+c = contract("server.AppNamespace.allocate_nameplate", cls="AppNamespace",
+             params={"side": "str", "when": "real"}, result="str",
+             modifies=CLAIM_MOD, tags=["C04", "C09", "C17"])
+
+
+@c.requires
+def _(c):
+    yield from core_for_claim(c.pre)
+    yield "clean_ch", Not(c.pre.in_tx["ch"])
+    yield "registry_wf", registry_wf(c.pre, c.self_ref)
+
+
+@c.ensures
+def _(c):
+    S0, S1 = c.pre, c.post
+    a, side, when = c.sf("_app_id"), c.a.t("side"), c.a.t("when")
+    res = to_term(c.result, "str")
+    k = undec(res)
+    # C04, on the pre-state: free, positive decimal, shortest available
+    yield "free", Not(U(S0, a)(res)), ["C04"]
+    yield "positive_decimal", And(res == dec(k), k >= 1), ["C04"]
+    some_short = EX([INT], lambda j: short_free(c, j))
+    yield "shortest", If(some_short,
+                         And(1 <= k, k <= 999, FA([INT], lambda j: Implies(short_free(c, j), ndigits(k) <= ndigits(j)))),
+                         And(1000 <= k, k <= 999999)), ["C04"]
+    # ... and held by the allocating side before the name is returned
+    n1 = S0.np_next
+    yield "claimed_before_return", And(
+        S1.t(NP).live[n1], S1.t(NP).cols["app_id"][n1] == a, S1.t(NP).cols["name"][n1] == res,
+        S1.t(NS).exists(lambda r: And(r.nameplates_id == n1, r.side == side, r.claimed))), ["C04"]
+    yield "committed", Not(S1.in_tx["ch"]), ["C09"]
+    yield "registry_wf", registry_wf(S1, c.self_ref), ["C02"]
+
+
+@c.raises("ValueError", "exhausted", tags=["C04", "C17"], iff=False)
+def _(c):
+    yield "when", Not(EX([INT], lambda j: short_free(c, j)))
+    yield "no_change", unchanged(c, CLAIM_MOD)
+
+
+# ------------------------------------------------ release_nameplate
+REL_MOD = [NP, NS, UNP, "in_tx.ch", "in_tx.us"]
+c = contract("server.AppNamespace.release_nameplate", cls="AppNamespace",
+             params={"name": "str", "side": "str", "when": "real"},
+             modifies=REL_MOD, tags=["C07", "C09", "C10", "C14", "C15", "C16", "C17"])
+
+
+@c.requires
+def _(c):
+    S = c.pre
+    yield "I1", I.I1(S)
+    yield "I3", I.I3(S)
+    yield "I4", I.I4(S)
+    yield "clean", I.Clean(S)
+
+
+def release_post(c):
+    S0, S1 = c.pre, c.post
+    a, name, side, when = c.sf("_app_id"), c.a.t("name"), c.a.t("side"), c.a.t("when")
+    N = N_pred(S0, a, name)
+    ns0, ns1, np0, np1 = S0.t(NS), S1.t(NS), S0.t(NP), S1.t(NP)
+
+    def mine(n):
+        return lambda r: And(r.nameplates_id == n, r.side == side)
+    noop = Or(Not(EX([INT], N)), FA([INT], lambda n: Implies(N(n), ns0.none(mine(n)))))
+    yield "noop", Implies(noop, unchanged(c, REL_MOD)), ["C07", "C14"]
+
+    def effect(n):
+        others = ns0.exists(lambda r: And(r.nameplates_id == n, r.side != side, r.claimed))
+        keep = And(is_update(ns0, ns1, mine(n), {"claimed": BoolVal(False)}), tbl_eq(np0, np1),
+                   tbl_eq(S0.t(UNP), S1.t(UNP)))
+        from pvc.state import is_insert_where
+        member = lambda r: And(ns0.live[r], ns0.cols["nameplates_id"][r] == n)
+        added = lambda r: ns0.cols["added"][r]
+        usage = If(H.CFG_USAGE,
+                   is_insert_where(S0.t(UNP), S1.t(UNP), lambda row: And(row.app_id == a, *[
+                       t for _, t, _ in np_summary_spec(None, when, BoolVal(False), *row_usage(row),
+                                                        member=member, added=added)])),
+                   tbl_eq(S0.t(UNP), S1.t(UNP)))
+        retire = And(is_delete(ns0, ns1, lambda r: r.nameplates_id == n),
+                     is_delete(np0, np1, lambda r: r.id == n), usage)
+        return Implies(ns0.exists(mine(n)), If(others, keep, retire))
+    # Claims' = Claims \ {side}; the nameplate goes exactly when no claim remains; one usage record then
+    yield "effect", FA([INT], lambda n: Implies(N(n), effect(n))), ["C07", "C15", "C16", "C14"]
+    yield "committed", I.Clean(S1), ["C09"]
+
+
+@c.ensures
+def _(c):
+    yield from release_post(c)
